@@ -337,11 +337,44 @@ pub struct CRun {
     pub ctoks: Vec<Tok>,
     pub stored: Vec<(Vec<u32>, Vec<u32>)>,
     pub list: MorphemeList<Dict>,
+    pub how: String, // provenance of the mode-C tokenizer
 }
 
-/// tokenise in mode C with a fresh tokenizer, keep the list and everything needed to express the path in model vocabulary
-pub fn run_c(dict: &Dict, text: &str) -> Result<CRun, String> {
-    let mut tok = StatefulTokenizer::new(dict.clone(), Mode::C);
+/// A tokenizer that is in mode `target` now, with the default field request.  Its provenance is drawn from `hrng`:
+/// freshly created in that mode, or created in some mode and switched 1..3 times with set_mode -- possibly analysing
+/// the text in between, like the per-call mode override of the Python binding -- and finally switched to `target`
+/// (also when it already is in that mode).  The property speaks of "tokenising in mode X" and "a C-mode morpheme",
+/// not of freshly created tokenizers, so every way of getting into the mode must behave alike.
+pub fn tokenizer_in_mode(dict: &Dict, text: &str, target: Mode, hrng: Option<&mut Rng>) -> (StatefulTokenizer<Dict>, String) {
+    let modes = [Mode::A, Mode::B, Mode::C];
+    let hrng = match hrng {
+        Some(r) => r,
+        None => return (StatefulTokenizer::new(dict.clone(), target), "fresh".to_string()),
+    };
+    if hrng.below(4) == 0 {
+        return (StatefulTokenizer::new(dict.clone(), target), "fresh".to_string());
+    }
+    let start = *hrng.pick(&modes);
+    let mut tok = StatefulTokenizer::new(dict.clone(), start);
+    let mut how = format!("new({:?})", start);
+    for _ in 0..(1 + hrng.below(3)) {
+        if hrng.chance(1, 2) {
+            tok.reset().push_str(text);
+            let _ = tok.do_tokenize();
+            how.push_str(";analyse");
+        }
+        let m = *hrng.pick(&modes);
+        tok.set_mode(m);
+        how.push_str(&format!(";set_mode({:?})", m));
+    }
+    tok.set_mode(target);
+    how.push_str(&format!(";set_mode({:?})", target));
+    (tok, how)
+}
+
+/// tokenise in mode C, keep the list and everything needed to express the path in model vocabulary
+pub fn run_c(dict: &Dict, text: &str, hrng: Option<&mut Rng>) -> Result<CRun, String> {
+    let (mut tok, how) = tokenizer_in_mode(dict, text, Mode::C, hrng);
     tok.reset().push_str(text);
     tok.do_tokenize().map_err(|e| format!("{}", e))?;
     let (modified, m2o) = {
@@ -372,17 +405,17 @@ pub fn run_c(dict: &Dict, text: &str) -> Result<CRun, String> {
     if boff != modified.len() {
         return Err(format!("C path covers {} of {} modified bytes", boff, modified.len()));
     }
-    Ok(CRun { modified, m2o, cpath, ctoks, stored, list })
+    Ok(CRun { modified, m2o, cpath, ctoks, stored, list, how })
 }
 
 pub fn run_mode(dict: &Dict, text: &str, mode: Mode) -> Option<Vec<Tok>> {
-    run_mode_subset(dict, text, mode, None)
+    run_mode_subset(dict, text, mode, None, None)
 }
 
 /// tokenise with a fresh tokenizer of the given mode, optionally after restricting the field request
-pub fn run_mode_subset(dict: &Dict, text: &str, mode: Mode, subset: Option<sudachi::dic::subset::InfoSubset>) -> Option<Vec<Tok>> {
+pub fn run_mode_subset(dict: &Dict, text: &str, mode: Mode, subset: Option<sudachi::dic::subset::InfoSubset>, hrng: Option<&mut Rng>) -> Option<Vec<Tok>> {
     catch(|| {
-        let mut tok = StatefulTokenizer::new(dict.clone(), mode);
+        let (mut tok, _) = tokenizer_in_mode(dict, text, mode, hrng);
         if let Some(ss) = subset {
             tok.set_subset(ss);
         }
@@ -567,7 +600,13 @@ fn run_case(sink: &mut Sink, lx: &Lexica, dict: &Dict, ci: &CaseIn, ill_formed: 
 
     let desc0 = json!({"kind": "c09", "text": ci.text, "system_csv": ci.sys_csv, "user_csvs": ci.user_csvs, "rewrite_def": REWRITE_DEF, "ill_formed": ill_formed,
                        "lexica": lx.words.iter().map(|w| json!([w.dic, w.idx, w.key, w.cost, w.indexed, w.a, w.b, w.head])).collect::<Vec<_>>()});
-    let c = match catch(|| run_c(dict, &ci.text)) {
+    // provenance of the tokenizers (fresh / switched between modes): drawn from the text so that a replay repeats it;
+    // dictionaries with ill-formed declarations use fresh ones (an analysis inside the history could panic)
+    let mut hrng = Rng::new(hash_of(&ci.text) ^ 0xC09);
+    let mut hc = if ill_formed { None } else { Some(hrng.fork()) };
+    let mut ha = if ill_formed { None } else { Some(hrng.fork()) };
+    let mut hb = if ill_formed { None } else { Some(hrng.fork()) };
+    let c = match catch(|| run_c(dict, &ci.text, hc.as_mut())) {
         Ok(Ok(c)) => c,
         Ok(Err(e)) => {
             let id = sink.case_rust_only(desc0, false);
@@ -580,12 +619,13 @@ fn run_case(sink: &mut Sink, lx: &Lexica, dict: &Dict, ci: &CaseIn, ill_formed: 
             return;
         }
     };
-    let a = run_mode(dict, &ci.text, Mode::A);
-    let b = run_mode(dict, &ci.text, Mode::B);
+    let a = run_mode_subset(dict, &ci.text, Mode::A, None, ha.as_mut());
+    let b = run_mode_subset(dict, &ci.text, Mode::B, None, hb.as_mut());
     let sa: Vec<_> = (0..c.ctoks.len()).map(|i| run_split(&c.list, i, Mode::A)).collect();
     let sb: Vec<_> = (0..c.ctoks.len()).map(|i| run_split(&c.list, i, Mode::B)).collect();
     if verbose {
         println!("text      : {:?}\nmodified  : {:?}\nm2o       : {:?}", ci.text, c.modified, c.m2o);
+        println!("C tokenizer: {}", c.how);
         println!("C path    : {:?}\nC tokens  : {:?}\nstored    : {:?}", c.cpath, c.ctoks, c.stored);
         println!("A tokens  : {:?}\nB tokens  : {:?}", a, b);
         println!("split A   : {:?}\nsplit B   : {:?}", sa, sb);
@@ -612,6 +652,7 @@ fn run_case(sink: &mut Sink, lx: &Lexica, dict: &Dict, ci: &CaseIn, ill_formed: 
         let w = lx.get((p.2 >> 28) as usize, p.2 & 0x0fff_ffff);
         [&w.a, &w.b].iter().any(|us| us.len() >= 2 && us[..us.len() - 1].iter().any(|u| lx.get(u.0, u.1).head.len() != lx.get(u.0, u.1).key.len()))
     });
+    sink.tag(if c.how == "fresh" { "C_tokenizer=fresh" } else if c.how.contains("analyse") { "C_tokenizer=switched_modes_with_analyses" } else { "C_tokenizer=switched_modes" });
     if differs {
         sink.tag("non-last_unit_headword_length_differs_from_key");
     }
@@ -682,7 +723,7 @@ fn run_case(sink: &mut Sink, lx: &Lexica, dict: &Dict, ci: &CaseIn, ill_formed: 
             use sudachi::dic::subset::InfoSubset;
             let ss = InfoSubset::from_bits_truncate(restricted_bits);
             for (m, full) in [(Mode::A, &a), (Mode::B, &b)] {
-                let r = run_mode_subset(dict, &ci.text, m, Some(ss));
+                let r = run_mode_subset(dict, &ci.text, m, Some(ss), None);
                 if &r != full {
                     sink.fail(id, &format!("mode {:?} with field request {:?} gives {:?}, with all fields {:?}", m, ss, r, full), "");
                     break;
@@ -714,7 +755,7 @@ fn lexica_from_json(v: &Value) -> Lexica {
 pub fn run(args: &Args) {
     let mut sink = Sink::new("C09", &args.out, &["Model.Split"], args.seed, &args.tier);
     sink.shard_size = 100;
-    sink.rule("generated system + 0..2 user dictionaries (atoms of 1/2/3/4-byte code points, headwords (column 4) often of another byte length than the key, compounds declaring A and B units by id, U-id or inline reference: system->system, user->system, user->user; homographs; words with exactly one unit; unindexed unit targets) compiled by DictBuilder and loaded with DefaultInputTextPlugin + a rewrite.def whose rules change byte lengths; texts = 1..4 dictionary words / stray characters, randomly re-spelt in pre-normalisation form (upper case, full width, ㌔, rewrite rules); per text: C, A, B tokenisation, A and B again under a restricted field request, and split_into(A/B) of every C token (sub-token ranges also checked against the unit key lengths); non-trivial = some C token declares >= 2 units; a separate malformed stream uses ill-formed declarations (unit list too short / first unit longer than the text)");
+    sink.rule("generated system + 0..2 user dictionaries (atoms of 1/2/3/4-byte code points, headwords (column 4) often of another byte length than the key, compounds declaring A and B units by id, U-id or inline reference: system->system, user->system, user->user; homographs; words with exactly one unit; unindexed unit targets) compiled by DictBuilder and loaded with DefaultInputTextPlugin + a rewrite.def whose rules change byte lengths; texts = 1..4 dictionary words / stray characters, randomly re-spelt in pre-normalisation form (upper case, full width, ㌔, rewrite rules); per text: C, A, B tokenisation by tokenizers that are fresh or were switched between modes (set_mode history, with analyses in between) before, A and B again under a restricted field request, and split_into(A/B) of every C token (sub-token ranges also checked against the unit key lengths); non-trivial = some C token declares >= 2 units; a separate malformed stream uses ill-formed declarations (unit list too short / first unit longer than the text)");
     let res = prepare_resources(&args.work);
     let cfg = config_json(&res, "");
     if let Some(p) = &args.replay {
